@@ -5,7 +5,7 @@
 From Coq Require Import List Ascii String Bool Arith PrimFloat.
 From Verif Require Import Base.Result Base.Str Base.Sexp Base.PyDict Base.Float
   Model.Tokenizer Model.Types Model.Domain Model.NumExpr Model.Problem Model.ProblemObs
-  Spec.Pddl Spec.Grammar Spec.Problem Corr.Common.
+  Spec.Pddl Spec.Grammar Spec.Problem Spec.ProblemObjects Corr.Common.
 Import ListNotations.
 Open Scope string_scope.
 Open Scope list_scope.
@@ -34,13 +34,41 @@ Definition pdump_agree (a b : pdump) : bool :=
   pdump_equiv a b && list_eqb fluent_entry_eqb (pd_fluents a) (pd_fluents b).
 
 (* ----- spec ----- *)
+(* A text that is outside the grammar of Spec/Problem.v only by its object section - a name declared again, lists nested
+   deeper or in other places than the grammar allows - is read in its NORMAL FORM (Spec/ProblemObjects.v: each name once,
+   at its first place, with its last type; nested lists spliced); every type written after a dash, also in a superseded
+   declaration, must then be declared ([spec_types]; for a text of the grammar this is part of wf_sproblem anyway). *)
 Definition spec_problem (c : pcase) : option sproblem :=
-  match case_sexp c with Ok e => read_problem (numtab c) e | Err _ => None end.
+  match case_sexp c with
+  | Ok e => match read_problem (numtab c) e with
+            | Some sp => Some sp
+            | None => read_problem (numtab c) (normal_objects e)
+            end
+  | Err _ => None
+  end.
+
+Definition section_types_declared (v : vocab) (s : sexp) : bool :=
+  match s with
+  | SList (Atom k :: _) =>
+      if String.eqb k ":objects" then
+        match groups_sx s with
+        | Some gs => forallb (fun g : ogroup => type_declared v (snd g)) gs
+        | None => true
+        end
+      else true
+  | _ => true
+  end.
+
+Definition spec_types (v : vocab) (c : pcase) : bool :=
+  match case_sexp c with
+  | Ok (SList l) => forallb (section_types_declared v) l
+  | _ => true
+  end.
 
 Definition spec_ok (v : vocab) (c : pcase) : bool :=
   match spec_problem c with
   | Some sp =>
-      let wf := wf_sproblem (numtab c) v sp in
+      let wf := wf_sproblem (numtab c) v sp && spec_types v c in
       match c_obs c with
       | Raised => negb wf
       | Returned d => wf && pdump_equiv d (spec_dump (numtab c) sp)
